@@ -8,6 +8,8 @@ from .values import (
     SV,
     ObjRef,
     View,
+    StaticRec,
+    StaticRecClass,
     EnumVal,
     EnumClass,
     RecordClass,
@@ -454,6 +456,15 @@ class ExprMixin:
             if attr == "__members__":
                 return {m: EnumVal(base.name, m) for m in base.members}
             raise Unsupported(f"enum {base.name} has no member {attr}")
+        if isinstance(base, StaticRecClass):
+            if attr == "_fields":
+                return base.fields
+            if attr == "_make":
+                return BoundMethod(base, "_make")
+        if isinstance(base, StaticRec):
+            if attr in base:
+                return base[attr]
+            raise Unsupported(f"record has no field {attr}")
         if isinstance(base, RecordClass):
             if attr == "_fields":
                 return tuple(f for f, _ in base.fields)
